@@ -368,7 +368,7 @@ type Evidence struct {
 }
 
 func writeEvidence(id string, ev *Evidence) {
-	dir := filepath.Join(verifDir, "evidence")
+	dir := envOr("GZV_EVIDENCE_DIR", filepath.Join(verifDir, "evidence"))
 	os.MkdirAll(dir, 0o755)
 	b, _ := json.MarshalIndent(ev, "", " ")
 	os.WriteFile(filepath.Join(dir, id+".json"), append(b, '\n'), 0o644)
@@ -436,6 +436,7 @@ func cmdCheck(args []string) int {
 		agg.FeasQueries += s.FeasQueries
 		agg.FeasByModel += s.FeasByModel
 		agg.Concretized += s.Concretized
+		agg.ByTruthTable += s.ByTruthTable
 		for _, f := range r.Res.Funcs {
 			funcs[f] = true
 		}
